@@ -182,6 +182,21 @@ pub mod train {
         Ok(rw.rewrite(features))
     }
 
+    /// As [`rewrite`], for many feature lists against one parsed rule set.
+    pub fn rewrite_many(
+        rewrite_def: &[u8],
+        section: u8,
+        feature_lists: &[Vec<String>],
+    ) -> Result<Vec<Option<Vec<String>>>> {
+        let (u, l, r) = TrainerConfig::verif_parse_rewrite_config(rewrite_def)?;
+        let rw = match section {
+            0 => u,
+            1 => l,
+            _ => r,
+        };
+        Ok(feature_lists.iter().map(|f| rw.rewrite(f)).collect())
+    }
+
     /// One template-expansion call: kind 0 = unigram (with category id), 1 = left, 2 = right.
     pub struct ExpandCall {
         pub kind: u8,
